@@ -188,7 +188,8 @@ def derefLine (line : String) : String :=
 /-! ### unit streams (task C05-nil): shapes of API objects → the mirrors of `NGF.Model.NilGuards`
 
   unit line  : `k=<filter|listener|backendref|btp|pathmatch> <shape fields>` (harness/c05/unit.go)
-  output     : `out=<ok|panic> site=<gsite|-> rep=<0|1|n> valid=<0|1|-> adm=<0|1> uns=<0|1>`
+  output     : `out=<ok|panic> site=<gsite|-> rep=<0|1|n> valid=<0|1|-> adm=<0|1> uns=<0|1> pre=<gsite|->`
+               pre = the site the PRE-FIX mirror (`processBtpPre`, code before cc3f1c7) fires on this shape
                rep = the real function must report an error / condition (pathmatch: the exact number of errors)
   ujudge line: the same shape fields + `rout=<ok|panic> rsite=<…> rrep=<n>` (what the REAL function did)
   output     : `ok` | `fail panic-on-admissible` | `fail silent-unsupported`  — the property on real outputs, with
@@ -299,10 +300,18 @@ def predict (fs : List String) : Option Pred :=
         uns := pathMatchUnsupported p }
   | _ => none
 
+/-- what the pre-fix mirrors would do on the shape (regression detector for repaired sites) -/
+def preSite (fs : List String) : String :=
+  match field fs "k" with
+  | some "btp" => match (pBtp fs).map processBtpPre with
+    | some (.error s) => s.name
+    | _ => "-"
+  | _ => "-"
+
 def unitLine (line : String) : String :=
   match predict (line.splitOn " ") with
   | none => "bad-op"
-  | some p => s!"out={p.out} site={p.site} rep={p.rep} valid={p.valid} adm={b01 p.adm} uns={b01 p.uns}"
+  | some p => s!"out={p.out} site={p.site} rep={p.rep} valid={p.valid} adm={b01 p.adm} uns={b01 p.uns} pre={preSite (line.splitOn " ")}"
 
 /-- The property on what the REAL function did with a shape: an admissible object never panics, and an admissible
 object that uses something NGF does not implement is reported (error / condition), never silently accepted. -/
